@@ -48,6 +48,7 @@ ASSUMPTIONS = [
 ]
 PROBES = [
     "stall_fault_armed",
+    "source_read_memerror_fired",
     "libc_read_errno_fired",
     "read_fault_in_input_file",
     "libc_errno_fired",
@@ -178,6 +179,10 @@ def gen_cases(tier: str, verif_seed: int, runs: int | None = None) -> list[dict]
                 for k in (0, 1, 2, 4):
                     p = prng()
                     cases.append(_base(p, w, fault=dict(kind="stalled_peer", k=k)))
+            # --- an allocation fails while the k-th chunk (or the probe) is read from the source
+            for k in (1, 2, 3, 5):
+                p = prng()
+                cases.append(_base(p, w, source="traced", fault=dict(kind="source_memerror", k=k)))
             # --- errno at every mutating fs event
             for en in ("ENOSPC", "EACCES", "EIO", "EROFS"):
                 p = prng()
@@ -317,6 +322,9 @@ def evaluate(case: dict, o: dict) -> tuple[dict | None, str | None]:
     if kind == "stalled_peer":
         # giving up may be reported (raise) or overcome (retry): both are fine, each with its obligations
         fired = bool(o["fault_fired"].get("timeouts_fire")) and o["outcome"] != "returned"
+    if kind == "source_memerror":
+        # the failed read may be reported or retried (then the catalog must be exact)
+        fired = bool(o["fault_fired"].get("source_memerror")) and o["outcome"] != "returned"
     expect_raise = kind is not None and fired
     o["fault_effective"] = expect_raise
 
@@ -382,7 +390,7 @@ def evaluate(case: dict, o: dict) -> tuple[dict | None, str | None]:
         elif opened:
             # accepted only if it holds exactly the complete new input
             ok = False
-            if kind in ("fs_errno", "pool_memerror", "writer_killed", "stalled_peer"):
+            if kind in ("fs_errno", "pool_memerror", "writer_killed", "stalled_peer", "source_memerror"):
                 try:
                     cache = orc.read_cache(target)
                     cols, parts, amb = orc.expected_partition(
@@ -587,6 +595,8 @@ def run_case(case: dict) -> dict:
                     probes["control_fault_free"] = probes.get("control_fault_free", 0) + 1
                 if kind == "stalled_peer":
                     probes["stall_fault_armed"] = probes.get("stall_fault_armed", 0) + 1
+                if kind == "source_memerror" and o["fault_fired"].get("source_memerror"):
+                    probes["source_read_memerror_fired"] = probes.get("source_read_memerror_fired", 0) + 1
                 if effective:
                     faults[kind] = faults.get(kind, 0) + 1
                     if "pos" in f:
